@@ -18,19 +18,33 @@ fn rust_entry(src: &str, path: &Option<String>, modules: &[(String, String)], mo
     let (mut i, log) = new_interp();
     let p = Policy { modules: modules.to_vec(), path: path.clone(), budget: 300_000, ..Default::default() };
     let mp = path.as_ref().map(|s| ModulePath::new(s.as_str()));
+    // programs that wait for a promise of the host's (global `hostP`): it is still pending when the program
+    // first awaits it and is resolved when the run reports Suspended with nothing else to answer
+    let mut hp: Option<tsrun::RuntimeValue> = None;
+    if src.contains("hostP") {
+        let pr = api::create_promise(&mut i);
+        let _ = api::set_property(&tsrun::JsValue::Object(i.global.clone()), "hostP", pr.value().clone());
+        hp = Some(pr);
+    }
     let first: Result<StepResult, JsError> = if mode == 0 { i.eval(src, mp) } else { i.prepare(src, mp) };
-    let o = if mode == 2 { drive_with_reads(&mut i, &log, first, &p) } else { drive(&mut i, &log, first, &p) };
+    let o = if mode == 2 || hp.is_some() { drive_with_reads(&mut i, &log, first, &p, mode == 2, &mut hp) } else { drive(&mut i, &log, first, &p) };
     fmt(&o, exports_of(&i))
 }
 
 /// like common::drive, but the host reads state between steps (must not disturb anything)
-fn drive_with_reads(i: &mut Interpreter, log: &Log, first: Result<StepResult, JsError>, p: &Policy) -> Obs {
+fn drive_with_reads(i: &mut Interpreter, log: &Log, first: Result<StepResult, JsError>, p: &Policy, reads: bool, hp: &mut Option<tsrun::RuntimeValue>) -> Obs {
     // reuse drive() one host-visible result at a time by stepping manually
     let mut o = Obs::default(); let mut r = first; let mut n = 0u64;
+    let mut settled: Vec<tsrun::RuntimeValue> = vec![];
     loop {
-        let _ = (i.call_depth(), i.gc_stats().live_objects, api::get_export_names(i).len());
+        if reads { let _ = (i.call_depth(), i.gc_stats().live_objects, api::get_export_names(i).len()); }
         match r {
-            Ok(StepResult::Continue) => { n += 1; if n > p.budget { o.status = "budget".into(); break; } if n % 7 == 0 { i.collect(); } r = i.step(); }
+            Ok(StepResult::Continue) => { n += 1; if n > p.budget { o.status = "budget".into(); break; } if reads && n % 7 == 0 { i.collect(); } r = i.step(); }
+            Ok(StepResult::Suspended { ref pending, .. }) if pending.is_empty() && hp.is_some() => {
+                o.trace.push("Susp([],hostP)".into());
+                if let Some(pr) = hp.take() { let _ = api::resolve_promise(i, &pr, tsrun::RuntimeValue::unguarded(tsrun::JsValue::from("HP"))); settled.push(pr); }
+                r = i.step();
+            }
             other => { let o2 = drive_one(i, log, other, p, &mut o); match o2 { Some(next) => r = next, None => break } }
         }
     }
@@ -162,8 +176,14 @@ pub fn case(v: &serde_json::Value) -> serde_json::Value {
     out.insert("eval".into(), g(&|| rust_entry(&src, &path, &modules, 0)).into());
     out.insert("step".into(), g(&|| rust_entry(&src, &path, &modules, 1)).into());
     out.insert("step+reads".into(), g(&|| rust_entry(&src, &path, &modules, 2)).into());
-    out.insert("c-run".into(), g(&|| c_entry(&src, &path, &modules, false)).into());
-    out.insert("c-step".into(), g(&|| c_entry(&src, &path, &modules, true)).into());
+    if src.contains("hostP") {
+        // the C API has no host-promise constructor: these programs are compared over the Rust entry points only
+        let step = out.get("step").cloned().unwrap_or_default();
+        out.insert("c-run".into(), step.clone()); out.insert("c-step".into(), step);
+    } else {
+        out.insert("c-run".into(), g(&|| c_entry(&src, &path, &modules, false)).into());
+        out.insert("c-step".into(), g(&|| c_entry(&src, &path, &modules, true)).into());
+    }
     if roles {
         out.insert("role-dependency".into(), g(&|| role_dependency(&src, &modules)).into());
         out.insert("role-internal".into(), g(&|| role_internal(&src, &modules)).into());
